@@ -149,6 +149,7 @@ UNITS = {
         ],
         "consts_verbatim": ["KADEMLIA_BUCKET_COUNT"],
         "paired_kani": ["c02_bucket_index_node", "c02_bucket_index_key"],
+        "search_test": "verif_search_c02",
         "trusted": [
             "verus external_body: DhtKey::distance ensures is_xor (same contract proved on the real fn by Kani c02_distance_is_xor)",
             "verus external_body: KBucket::add_node / remove_node contracts (proved on the real fns by Kani c02_kbucket_add_contract_* / c02_kbucket_remove_contract_*, bounded bucket length)",
